@@ -226,6 +226,17 @@ def run_property(prop, tier, seed, only_fn=None, verbose=False):
             for r in pool.map(smt.discharge_one, retry, chunksize=1):
                 r['retried'] = True
                 by_id[r['id']] = r
+        # third and fourth chance with other random seeds of z3 (its sequence solver is sensitive to them)
+        for seed_ in (7, 23):
+            retry = [dict(j, timeout_ms=j['timeout_ms'] * 6, z3_seed=seed_) for j in jobs
+                     if not j['expect_sat'] and (by_id[j['id']]['status'] not in ('unsat', 'sat') or by_id[j['id']].get('tentative'))]
+            if not retry:
+                break
+            for r in pool.map(smt.discharge_one, retry, chunksize=1):
+                r['retried'] = True
+                prev = by_id[r['id']]
+                r['tried'] = prev.get('tried', []) + r.get('tried', [])
+                by_id[r['id']] = r
     # ---- const/ obligations: facts about extracted signatures, constants, call sites, call graph
     for k, con in REGISTRY.items():
         if not con.consts_ and not con.lemmas_:
@@ -509,6 +520,23 @@ def summarise(prop, tier, seed, fres, jobs, by_id, wall, extra_bounded=None):
         return 3
     if violations:
         return 1
+    # an obligation that discharged on the repaired tree (baseline) and is open now is not "held": exit 2, the open
+    # obligations are named in the evidence file and below.  Obligations that never discharged stay a level matter.
+    regressed = []
+    for u in undecided:
+        g = u.get('group')
+        fn = u.get('function')
+        if g and fn and g in base_groups.get(fn, []):
+            regressed.append('%s %s' % (fn.split(':')[-1], g))
+        elif g and fn and g.startswith('exc/only_raises:') and 'exc/only_raises' in base_groups.get(fn, []):
+            regressed.append('%s %s' % (fn.split(':')[-1], g))
+        elif not g and fn and base_groups.get(fn):
+            # the function as a whole left the verifiable subset / lost an anchor although it verified before
+            regressed.append('%s (%s)' % (fn.split(':')[-1], u.get('why')))
+    if regressed:
+        for r in sorted(set(regressed))[:20]:
+            print('UNDECIDED property=%s %s' % (prop, r))
+        return 2
     return 0
 
 
